@@ -13,6 +13,7 @@ sa.libmodel; anything else becomes Top / an uninterpreted application and is rec
 from __future__ import annotations
 
 import ast
+from fractions import Fraction
 import itertools
 
 from .progdb import AnalysisError, ClassInfo, FunctionInfo, ModuleInfo
@@ -130,6 +131,49 @@ def raw_dtype_root(v, depth=0):
                 r = raw_dtype_root(a, depth + 1)
                 if r is not None:
                     return r
+    return None
+
+
+INT_KEEP_FNS = {"getitem", "sum", "cumsum", "reshape", "flatten", "asarray", "take", "diagonal", "trace", "copy", "concat", "stack", "squeeze", "expand_dims", "moveaxis",
+                "swapaxes", "transpose", "attr:T", "store", "amin", "amax", "min", "max", "abs", "sort", "flip", "repeat", "elem", "diff", "where", "ite", "prod", "len"}
+
+
+def int_degree(v, depth=0):
+    """Degree of a value as an integer polynomial of caller-supplied COUNT arrays (tag `intcount`: a numpy integer dtype, fixed width)
+    when the value is still evaluated in that integer dtype; None once it is a float (true division, float conversion, float constant)
+    or a Python int (len(), arbitrary precision)."""
+    if depth > 14:
+        return None
+    if isinstance(v, Const):
+        return 0 if isinstance(v.value, int) or (isinstance(v.value, Fraction) and v.value.denominator == 1 and not getattr(v, "is_float", False)) else None
+    if isinstance(v, Sym):
+        return 1 if "intcount" in v.tags else None
+    if isinstance(v, Num):
+        deg = 0
+        for m, c in v.poly.t.items():
+            if Fraction(c).denominator != 1:
+                return None
+            d = 0
+            for a, e in m:
+                da = int_degree(a, depth + 1)
+                if da is None or e < 0:
+                    return None
+                d += da * e
+            deg = max(deg, d)
+        return deg
+    if isinstance(v, App):
+        if v.fn == "fresh":
+            return None if v.kwd("dtype") == Const("float") or not v.args else int_degree(v.args[0], depth + 1)
+        if v.fn == "len":
+            return None   # a Python int
+        if v.fn == "prod" and v.args:
+            d = int_degree(v.args[0], depth + 1)
+            return None if d is None else (3 if d >= 1 else 0)   # a product over an axis: unbounded degree
+        if v.fn in INT_KEEP_FNS and v.args:
+            ds = [int_degree(a, depth + 1) for a in (v.args[1:] if v.fn in ("where", "ite") else v.args[:1] if v.fn not in ("concat", "stack", "min", "max") else v.args)]
+            if v.fn in ("concat", "stack") and len(v.args) == 1 and isinstance(v.args[0], Tup):
+                ds = [int_degree(a, depth + 1) for a in v.args[0].items]
+            return None if (not ds or any(d is None for d in ds)) else max(ds)
     return None
 
 
@@ -1578,11 +1622,11 @@ class Evaluator:
         if op == "Sub":
             return sub(a, b)
         if op == "Mult":
-            return mul(a, b)
+            return self.int_product(mul(a, b), a, b, node)
         if op == "Div":
             return div(a, b)
         if op == "Pow":
-            return powv(a, b)
+            return self.int_product(powv(a, b), a, b, node)
         if op == "FloorDiv":
             if is_const(a) and is_const(b) and const_of(b) != 0:
                 return Const(const_of(a) // const_of(b))
@@ -1592,6 +1636,15 @@ class Evaluator:
                 return Const(const_of(a) % const_of(b))
             return mk_app("mod", [a, b])
         return App("binop:" + op, (a, b))
+
+    def int_product(self, r, a, b, node=None):
+        """A product / power evaluated in the callers' fixed-width integer dtype whose degree in the counts is >= 3 (wraps at 2**21 per factor)."""
+        da, db = int_degree(a), int_degree(b)
+        if da is not None and db is not None and (da >= 1 or db >= 1):
+            d = int_degree(r)
+            if d is not None and d >= 3:
+                self.event("int_product", degree=d, node=node, text=ast.unparse(node) if isinstance(node, ast.AST) else show(r, 60))
+        return r
 
     def ex_BoolOp(self, e, fr):
         """Python short-circuit semantics: `a or b` is a if truthy(a) else b (values, not just truth)."""
